@@ -187,3 +187,5 @@ INFO = dict(
     outside=["strings longer than L", "Lark features outside the supported subset", "weights of the produced grammar (only support is claimed)"],
     assumptions=["every non-ignored terminal matches at least one character"],
 )
+
+INFO["technique"] = 'z3 sequence/regex theory: the grammar returned by the real LarkStuff.char_cfg/byte_cfg is encoded for a symbolic string (bounded inside encoding) and compared with the substitution semantics; all strings <= L; models replayed'
